@@ -364,6 +364,13 @@ func (c *Conn) execOne() {
 	if i > 0 {
 		e.Probe("exec-out-of-order")
 	}
+	if c.Srv.Flaky && req.Method != "" {
+		e.Stats.FaultKinds["flaky-drop"]++
+		e.NExec++
+		c.Reset("flaky server dropped the connection on a request", io.EOF)
+		e.FlakyDrops = append(e.FlakyDrops, [2]int64{int64(c.N), int64(e.Now())})
+		return
+	}
 	nlog := len(e.C.Execs)
 	resp := e.C.Execute(req)
 	for _, x := range e.C.Execs[nlog:] {
